@@ -34,49 +34,87 @@ mod verif_comment {
         n
     }
 
-    fn run_line_comment<const K: usize>() {
+    fn line_text<const K: usize>(full: &mut [u8; 8]) -> usize {
         // "//" + K symbolic bytes; a single-line comment never contains a line break (scanner contract)
         let buf: [u8; K] = kani::any();
-        let mut full = [b'/'; 8];
+        full[0] = b'/';
+        full[1] = b'/';
         let mut i = 0;
         while i < K {
             kani::assume(buf[i] < 0x80 && buf[i] != b'\n' && buf[i] != b'\r');
             full[2 + i] = buf[i];
             i += 1;
         }
+        2 + K
+    }
+
+    fn run_line_comment<const K: usize>() {
+        let mut full = [0u8; 8];
+        let n = line_text::<K>(&mut full);
         // SAFETY: ASCII only
-        let text = unsafe { core::str::from_utf8_unchecked(&full[..2 + K]) };
+        let text = unsafe { core::str::from_utf8_unchecked(&full[..n]) };
+        let mut tok = Token::new_ref(text, 0, TokenType::Comment(CommentKind::InlineLine));
+        format_line_comment(&mut tok);
+        let mut exp = [0u8; 16];
+        let en = line_comment_oracle(text.as_bytes(), &mut exp);
+        kani::cover!(en == n + 1, "a space was inserted after the prefix");
+        kani::cover!(en < n, "trailing blanks were trimmed");
+        let got = tok.get_content().as_bytes();
+        assert!(got.len() == en, "OB rewriters/line_comment_text: line comment = prefix, one space if text follows directly, text, trailing blanks trimmed (length)");
+        let mut j = 0;
+        while j < en && j < got.len() {
+            assert!(got[j] == exp[j], "OB rewriters/line_comment_text: line comment = prefix, one space if text follows directly, text, trailing blanks trimmed (bytes)");
+            j += 1;
+        }
+    }
+
+    // a comment already in normal form (blank or nothing after the prefix, no trailing blank) is left alone
+    fn run_line_comment_fixpoint<const K: usize>() {
+        let mut full = [0u8; 8];
+        let n = line_text::<K>(&mut full);
+        let p = if full[2] == b'/' { 3 } else { 2 };
+        kani::assume(p >= n || ws(full[p]));
+        kani::assume(!ws(full[n - 1]));
+        // SAFETY: ASCII only
+        let text = unsafe { core::str::from_utf8_unchecked(&full[..n]) };
+        let mut tok = Token::new_ref(text, 0, TokenType::Comment(CommentKind::IndividualLine));
+        format_line_comment(&mut tok);
+        kani::cover!(p < n, "text after the prefix");
+        let got = tok.get_content().as_bytes();
+        assert!(got.len() == n, "OB rewriters/line_comment_fixpoint: normalising a normalised comment changes nothing");
+        let mut j = 0;
+        while j < n && j < got.len() {
+            assert!(got[j] == full[j], "OB rewriters/line_comment_fixpoint: normalising a normalised comment changes nothing");
+            j += 1;
+        }
+    }
+
+    // dispatch: only unignored single-line comments / directives are rewritten; counters are never written
+    #[kani::proof]
+    #[kani::unwind(8)]
+    fn comment_dispatch() {
         let tt: TokenType = kani::any();
         let ignored: bool = kani::any();
+        let line_shape: bool = kani::any();
+        let text = if line_shape { "//x" } else { "{$i+}" };
         let mut toks = [Token::new_ref(text, 0, tt)];
         let mut ft = FormattedTokens::verif_new(&mut toks, vec![FormattingData::verif_new(ignored, 1, 2, 3, 4)]);
         CommentFormatter {}.format(&mut ft, &[]);
         let is_lc = matches!(tt, TokenType::Comment(CommentKind::InlineLine | CommentKind::IndividualLine));
-        let mut exp = [0u8; 16];
-        let en = if is_lc && !ignored { line_comment_oracle(text.as_bytes(), &mut exp) } else {
-            let mut j = 0;
-            while j < 2 + K { exp[j] = full[j]; j += 1; }
-            2 + K
-        };
-        kani::cover!(is_lc && !ignored && en == 3 + K, "a space was inserted after the prefix");
-        kani::cover!(is_lc && !ignored && en < 2 + K, "trailing blanks were trimmed");
-        kani::cover!(!is_lc || ignored, "token that must be left alone");
-        {
-            let (tok, fmt) = ft.get_token(0).unwrap();
-            let got = tok.get_content().as_bytes();
-            assert!(got.len() == en, "OB rewriters/line_comment_text: line comment = prefix, one space if text follows directly, text, trailing blanks trimmed; other tokens untouched (length)");
-            let mut j = 0;
-            while j < en && j < got.len() {
-                assert!(got[j] == exp[j], "OB rewriters/line_comment_text: line comment = prefix, one space if text follows directly, text, trailing blanks trimmed; other tokens untouched (bytes)");
-                j += 1;
-            }
-            assert!(fmt.newlines_before == 1 && fmt.indentations_before == 2 && fmt.continuations_before == 3 && fmt.spaces_before == 4,
-                "OB rewriters/comment_frame: the comment rule does not write formatting counters");
+        let is_dir = matches!(tt, TokenType::CompilerDirective | TokenType::ConditionalDirective(_));
+        let (tok, fmt) = ft.get_token(0).unwrap();
+        let c = tok.get_content().as_bytes();
+        kani::cover!(is_lc && !ignored && line_shape, "line comment rewritten");
+        kani::cover!(is_dir && !ignored && !line_shape, "directive rewritten");
+        if line_shape {
+            assert!((c.len() == 4) == (is_lc && !ignored), "OB rewriters/comment_dispatch: only unignored single-line comments get the line-comment normalisation");
+            assert!(c.len() == 4 || c.len() == 3, "OB rewriters/comment_dispatch: only unignored single-line comments get the line-comment normalisation");
+        } else {
+            assert!(c.len() == 5 && (c[2] == b'I') == (is_dir && !ignored) && (c[2] == b'I' || c[2] == b'i'), "OB rewriters/comment_dispatch: only unignored directives get the directive normalisation");
         }
-        // fixpoint
-        let first_len = ft.get_token(0).unwrap().0.get_content().len();
-        CommentFormatter {}.format(&mut ft, &[]);
-        assert!(ft.get_token(0).unwrap().0.get_content().len() == first_len, "OB rewriters/line_comment_fixpoint: normalising a normalised comment changes nothing");
+        assert!(tok.get_token_type() == tt, "OB rewriters/comment_kind_kept: the comment rule does not change token kinds");
+        assert!(fmt.newlines_before == 1 && fmt.indentations_before == 2 && fmt.continuations_before == 3 && fmt.spaces_before == 4,
+            "OB rewriters/comment_frame: the comment rule does not write formatting counters");
     }
 
     #[kani::proof]
@@ -97,6 +135,12 @@ mod verif_comment {
         run_line_comment::<4>();
     }
 
+    #[kani::proof]
+    #[kani::unwind(10)]
+    fn comment_line_fixpoint_k3() {
+        run_line_comment_fixpoint::<3>();
+    }
+
     fn upper(b: u8) -> u8 {
         if b >= b'a' && b <= b'z' { b - 32 } else { b }
     }
@@ -114,15 +158,12 @@ mod verif_comment {
         let n = p + K + 1;
         // SAFETY: ASCII only
         let text = unsafe { core::str::from_utf8_unchecked(&full[..n]) };
-        let tt: TokenType = kani::any();
-        let ignored: bool = kani::any();
-        let mut toks = [Token::new_ref(text, 0, tt)];
-        let mut ft = FormattedTokens::verif_new(&mut toks, vec![FormattingData::verif_new(ignored, 0, 0, 0, 1)]);
-        CommentFormatter {}.format(&mut ft, &[]);
-        let is_dir = matches!(tt, TokenType::CompilerDirective | TokenType::ConditionalDirective(_));
+        let mut tok = Token::new_ref(text, 0, TokenType::CompilerDirective);
+        format_compiler_directive(&mut tok);
+        let (is_dir, ignored) = (true, false);
         let mut first: [u8; 12] = [0; 12];
         {
-            let got = ft.get_token(0).unwrap().0.get_content().as_bytes();
+            let got = tok.get_content().as_bytes();
             assert!(got.len() == n, "OB rewriters/directive_same_length: directive normalisation keeps the length");
             let mut j = 0;
             let mut seen_kept_lower = false;
@@ -142,8 +183,8 @@ mod verif_comment {
             kani::cover!(changed, "a directive name was upper-cased");
             kani::cover!(is_dir && !ignored && !changed, "directive left unchanged");
         }
-        CommentFormatter {}.format(&mut ft, &[]);
-        let got2 = ft.get_token(0).unwrap().0.get_content().as_bytes();
+        format_compiler_directive(&mut tok);
+        let got2 = tok.get_content().as_bytes();
         let mut j = 0;
         while j < n && j < got2.len() {
             assert!(got2[j] == first[j], "OB rewriters/directive_fixpoint: normalising a normalised directive changes nothing");
